@@ -8,9 +8,9 @@ package main
 // turns a failed step into a silent success, which each of the properties rules out in its own terms.
 
 import (
-	"go/types"
 	"fmt"
 	"go/token"
+	"go/types"
 	"sort"
 	"strings"
 
